@@ -21,6 +21,8 @@ var c06Cfg = kit.WorldCfg{
 		{Name: "deps", RefTo: "things", RefWiring: kit.WireConstraintDel},      // deleted together with the thing they reference
 		{Name: "holders", RefTo: "things", RefWiring: kit.WireFkIndexNullable}, // restrict
 		{Name: "owned", RefTo: "targets", RefWiring: kit.WireFkIndexCascade},   // deleted together with their target
+		// declared against the child store kids, its back-reference set kept by the parent store things (restrict)
+		{Name: "kholders", RefTo: "kids", RefWiring: kit.WireFkIndexNullable, BackRefOnParent: true},
 	},
 	// two child types over things: "kids0" is registered first; "kids" has a unique index and a link collection of its own
 	Children: []kit.ChildCfg{{Name: "kids0", Parent: "things"}, {Name: "kids", Parent: "things", UniqueExtra: true}},
@@ -45,9 +47,10 @@ var c06IDs = map[string][]string{
 	"targets": {"id-tg1", "id-tg10", "id-tg3", c06Long("tg")},
 	// ... and the referring stores have ids that also occur in the store they refer to (a record that re-uses the id
 	// of its owner): id-th3 in deps and holders, id-tg1 in owned
-	"deps":    {"id-dp1", "id-dp2", "id-dp3", "id-dp4", "id-th3"},
-	"holders": {"id-ho1", "id-ho2", "id-th3"},
-	"owned":   {"id-ow1", "id-ow2", "id-ow3", "id-ow4", "id-tg1"},
+	"deps":     {"id-dp1", "id-dp2", "id-dp3", "id-dp4", "id-th3"},
+	"holders":  {"id-ho1", "id-ho2", "id-th3"},
+	"kholders": {"id-kh1", "id-kh2"},
+	"owned":    {"id-ow1", "id-ow2", "id-ow3", "id-ow4", "id-tg1"},
 }
 
 // c06NameMax is a name of exactly bbolt.MaxKeySize bytes: the longest value a unique index can hold
@@ -172,19 +175,19 @@ func genC06(t *rapid.T) c06Case {
 			}
 			return op
 		}
-		stores := []string{"things", "things", "kids", "kids", "kids0", "targets", "targets", "deps", "holders", "owned"}
+		stores := []string{"things", "things", "kids", "kids", "kids0", "targets", "targets", "deps", "holders", "owned", "kholders"}
 		store := stores[rapid.IntRange(0, len(stores)-1).Draw(t, l+"_store")]
 		u := kit.EntUniverse{IDs: c06IDs[store], Names: []string{"na", "nb", "nc", "nd", "ne", "nf"}, Notes: []string{"", "note"},
 			Fields: []string{kit.FName, kit.FAlias, kit.FRoles, kit.FRef, kit.FExtra}}
 		switch store {
 		case "things", "kids", "kids0":
 			u.Aliases = []*string{nil, kit.Sp("al1"), kit.Sp("al2"), kit.Sp("al3")}
-			u.Roles = []string{"r1", "r2"}
+			u.Roles = []string{"r1", "r2", "R1"} // two of them differ only in letter case
 			u.Refs = refsTo("targets")
 			u.Extras = []string{"", "ex1", "ex2", "ex3"}
 		case "targets":
-			u.Roles = []string{"r1", "r2"}
-		case "deps", "holders":
+			u.Roles = []string{"r1", "r2", "R1"}
+		case "deps", "holders", "kholders":
 			u.Refs = refsTo("things")
 		case "owned":
 			u.Refs = refsTo("targets")
@@ -209,6 +212,27 @@ func genC06(t *rapid.T) c06Case {
 		for _, id := range c06IDs["owned"] {
 			if _, ok := m0.Ents["owned"][id]; ok && len(m0.LinkedFrom("owned.orc", false, id)) > 0 {
 				h.Txs = append(h.Txs, kit.TxSpec{Ops: []kit.Op{{Kind: "delete", Store: "owned", ID: id}}})
+				break
+			}
+		}
+	}
+	if rapid.IntRange(0, 3).Draw(t, "deleteRecreateBulkDelete") == 0 {
+		// one transaction: an entity is deleted, created again under the same id and then matched by a bulk delete
+		m0 := replayModel(h)
+		for _, s := range []string{"targets", "things"} {
+			done := false
+			for _, id := range c06IDs[s] {
+				if _, ok := m0.Ents[s][id]; !ok || len(m0.Referrers(s, id)) > 0 {
+					continue
+				}
+				h.Txs = append(h.Txs, kit.TxSpec{Ops: []kit.Op{
+					{Kind: "delete", Store: s, ID: id},
+					{Kind: "create", Store: s, ID: id, Spec: &kit.EntSpec{Name: "n-again", Roles: []string{"r2"}}},
+					{Kind: "deletewhere", Store: s, Spec: &kit.EntSpec{Name: "n-again"}}}})
+				done = true
+				break
+			}
+			if done {
 				break
 			}
 		}
